@@ -63,6 +63,20 @@ fn has_str(t: &LuaType, p: &dyn Fn(&str) -> bool) -> bool {
     }
 }
 
+/// a union with both `any` and `nil` somewhere inside (`any?` reads back as `any`)
+fn has_any_nil_union(t: &LuaType) -> bool {
+    match t {
+        LuaType::Union(u) => {
+            let ms = u.into_vec();
+            (ms.iter().any(|m| m.is_any()) && ms.iter().any(|m| m.is_nil())) || ms.iter().any(has_any_nil_union)
+        }
+        LuaType::Array(a) => has_any_nil_union(a.get_base()),
+        LuaType::TableGeneric(ps) => ps.iter().any(has_any_nil_union),
+        LuaType::Object(o) => o.get_fields().values().any(has_any_nil_union),
+        _ => false,
+    }
+}
+
 fn esc_before_digit(s: &str) -> bool {
     let cs: Vec<char> = s.chars().collect();
     cs.windows(2).any(|w| w[0] == '\u{1b}' && w[1].is_ascii_digit())
@@ -166,6 +180,8 @@ pub fn run(args: &Args, report: &mut Report) {
                                 Some("string-literal-contains-double-quote")
                             } else if has_str(&ty, &esc_before_digit) {
                                 Some("string-literal-esc-before-digit")
+                            } else if has_any_nil_union(&ty) {
+                                Some("union-of-any-and-nil")
                             } else if mentions(&ty, &aliases) {
                                 Some("optional-alias-reference")
                             } else {
